@@ -510,6 +510,14 @@ func (n *RealNode) Update(b *FakeBlock, proof []byte) (string, string) {
 }
 
 
+// CancelAhead: what the main loop does when it accepts a node sync for block h, before the worker
+// has taken the block from the channel: every context older than (h+1, 0) is cancelled.
+func (n *RealNode) CancelAhead(h uint64) (string, string) {
+	return n.run(func() {
+		n.St.Contexts.CancelOlderThan(state.NewHeightView(primitives.BlockHeight(h+1), 0))
+	})
+}
+
 // Shutdown cancels the context given to Run and waits for both loops.
 func (n *RealNode) Shutdown() (string, string, time.Duration) {
 	var took time.Duration
